@@ -117,12 +117,16 @@ def l124a():
     now = symreal('now', lo=0, hi=TMAX)
     clock = proto.clock_at(now)
     u, c = connected_client(clock)
+    # the link is open: in use (CONNECTED) or being closed (DISCONNECTING: the peer sent DISCONNECT / a disconnect was
+    # requested and the exchange has not finished) - a silent peer is detected in both
+    st0 = [Status.CONNECTED, Status.DISCONNECTING][choose(2, 'status_before')]
+    c.status = st0
     c.last_recv_time = symreal('last_recv', lo=-1, hi=now)
     c.last_latency_update_time = 0
     c.update()
     silent = And(c.last_recv_time > 0, now > c.last_recv_time + 5)
     check(Iff(silent, c.status == Status.DROPPED), 'client reports DROPPED exactly when the server has been silent for more than 5 s')
-    check(Or(c.status == Status.DROPPED, c.status == Status.CONNECTED), 'otherwise it stays CONNECTED')
+    check(Or(c.status == Status.DROPPED, c.status == st0), 'otherwise it stays CONNECTED')
 
 
 def l124b(with_callback):
